@@ -6,6 +6,8 @@ import (
 	"fmt"
 	"go/token"
 	"go/types"
+	"os"
+	"reflect"
 	"sort"
 	"strings"
 
@@ -261,32 +263,34 @@ func ruleRegArg(c *Ctx) {
 		}
 		return only
 	}
+	// the element types of the package-level maps of functions (the registries)
+	var elems []types.Type
+	elemOf := map[string]string{}
+	for _, g := range moduleGlobals(P) {
+		if mt, isM := g.Type().(*types.Pointer).Elem().Underlying().(*types.Map); isM && isSignature(mt.Elem()) {
+			elems = append(elems, mt.Elem())
+			elemOf[typeKey(mt.Elem())] = globalKey(g)
+		}
+	}
 	n := 0
 	for _, fn := range P.ModuleFuncs() {
 		for _, cs := range callsIn(fn) {
 			if cs.Static != nil || cs.Iface != nil || cs.Value() == nil {
 				continue
 			}
-			// the callee is what a lookup in a package-level map of functions gave
-			callee := cs.Common.Value
-			if ex, ok := callee.(*ssa.Extract); ok {
-				callee = ex.Tuple
+			// a call of a function value of a registry's element type: a builder that was looked up there, in
+			// this function or in a helper that hands it back
+			var g *ssa.Global
+			gname := ""
+			for _, et := range elems {
+				if types.Identical(cs.Common.Value.Type(), et) {
+					gname = elemOf[typeKey(et)]
+				}
 			}
-			lk, ok := callee.(*ssa.Lookup)
-			if !ok {
+			if gname == "" {
 				continue
 			}
-			ld, ok := lk.X.(*ssa.UnOp)
-			if !ok {
-				continue
-			}
-			g, ok := ld.X.(*ssa.Global)
-			if !ok || !P.isModulePkg(g.Pkg.Pkg) {
-				continue
-			}
-			if mt, isM := ld.Type().Underlying().(*types.Map); !isM || !isSignature(mt.Elem()) {
-				continue
-			}
+			_ = g
 			n++
 			key := fmt.Sprintf("%s/registered-builder-args#%d", fnKey(fn), n)
 			var bad []string
@@ -300,7 +304,7 @@ func ruleRegArg(c *Ctx) {
 					bad = append(bad, fmt.Sprintf("argument %d is parameter %s of another type", i+1, p.Name()))
 				}
 			}
-			c.Check(len(bad) == 0, key, P.pos(cs.Instr.Pos()), fmt.Sprintf("the builder from %s is called with the function's own parameters, unmodified", globalKey(g)), strings.Join(bad, "; ")+": a registered builder sees something other than the schema and type the caller supplied")
+			c.Check(len(bad) == 0, key, P.pos(cs.Instr.Pos()), fmt.Sprintf("the builder from %s is called with the function's own parameters, unmodified", gname), strings.Join(bad, "; ")+": a registered builder sees something other than the schema and type the caller supplied")
 		}
 	}
 }
@@ -365,7 +369,24 @@ func ruleERUse(c *Ctx) {
 					switch x := r.(type) {
 					case *ssa.DebugRef, *ssa.Return, *ssa.Store:
 					case *ssa.Phi:
-						follow(x)
+						// the value merges into a variable: where it arrives from a point at which the error was
+						// already found nil it is a good value from then on
+						unchecked := false
+						for i, ed := range x.Edges {
+							if ed != v {
+								continue
+							}
+							isNil := false
+							if errv != nil {
+								_, isNil = knownNonNil(x.Block().Preds[i], errv)
+							}
+							if !isNil {
+								unchecked = true
+							}
+						}
+						if unchecked {
+							follow(x)
+						}
 					case *ssa.ChangeType:
 						follow(x)
 					case *ssa.MakeInterface:
@@ -522,4 +543,563 @@ func decisionList(d map[string]bool) []string {
 	}
 	sort.Strings(out)
 	return out
+}
+
+// ---------- folding small methods for PANIC-REACH and the New contract
+
+type smallFold struct {
+	ok      bool
+	outs    []cpOutcome
+	panicAt map[ssa.Instruction]bool
+}
+
+var smallFoldCache = map[*ssa.Function]*smallFold{}
+
+// foldSmall folds a method with its receiver's fields and its arguments unknown (E-CP), the read buffer's
+// methods opaque, and records which panic instructions some path reaches.
+func foldSmall(P *Program, fn *ssa.Function) *smallFold {
+	if r, ok := smallFoldCache[fn]; ok {
+		return r
+	}
+	r := &smallFold{panicAt: map[ssa.Instruction]bool{}}
+	smallFoldCache[fn] = r
+	if fn == nil || fn.Blocks == nil || len(fn.Blocks) > 40 {
+		return r
+	}
+	args := make([]cpVal, len(fn.Params))
+	for i, p := range fn.Params {
+		args[i] = cpUnk{ID: "arg:" + p.Name()}
+		if i == 0 && fn.Signature.Recv() != nil {
+			if el := derefType(p.Type()); el != p.Type() {
+				if _, isS := el.Underlying().(*types.Struct); isS {
+					args[i] = cpPtrTo(cpStructUnknownExcept(el, nil), el)
+				}
+			} else if _, isS := p.Type().Underlying().(*types.Struct); isS {
+				args[i] = cpStructUnknownExcept(p.Type(), nil)
+			}
+		}
+	}
+	opaque := func(g *ssa.Function) bool {
+		if rv := g.Signature.Recv(); rv != nil {
+			switch typeKey(derefType(rv.Type())) {
+			case "avro.ReadBuf", "avro.ResourceBank", "avro.WriteBuf":
+				return true
+			}
+		}
+		return false
+	}
+	save := cpPanicAt
+	cpPanicAt = r.panicAt
+	outs, _, ok, whyF := cpFoldOpt(P, fn, args, opaque)
+	cpPanicAt = save
+	if os.Getenv("AVROCHECK_SMALLFOLD") != "" {
+		fmt.Fprintf(os.Stderr, "foldSmall %s ok=%v why=%s outs=%d panics=%d\n", fnKey(fn), ok, whyF, len(outs), len(r.panicAt))
+		for _, o := range outs {
+			fmt.Fprintf(os.Stderr, "   outcome panics=%v decided=%v calls=%d\n", o.Panics, o.Decided, len(o.Calls))
+			for _, cl := range o.Calls {
+				fmt.Fprintf(os.Stderr, "      %s %.100v\n", cl.Callee, cl.Args)
+			}
+		}
+	}
+	r.ok, r.outs = ok, outs
+	return r
+}
+
+// ---------- JS-HOIST by fold
+
+// jsHoistByFold decides JS-HOIST by folding Schema.UnmarshalJSONFrom (E-CP) with the decoder unknown and the
+// receiver a schema whose fields are unknown: the kind peeked forks four ways (string, array, object, anything
+// else) and what each outcome leaves in the schema is read off the receiver afterwards — wherever the three
+// forms are handled (the method itself, or helpers it calls).
+func jsHoistByFold(c *Ctx, ufn *ssa.Function) bool {
+	P := c.P
+	if ufn == nil || ufn.Blocks == nil || len(ufn.Params) != 2 {
+		return false
+	}
+	schemaT := derefType(ufn.Params[0].Type())
+	e := &cpEngine{P: P, MaxOut: 100, MaxSteps: 20000, MaxForks: 24, MaxDepth: 6, visited: map[*ssa.Function]bool{}, trackAtoms: true, foldAll: true}
+	e.globals = cpInitGlobals(P)
+	e.pending = [][]bool{nil}
+	type form struct {
+		seen bool
+		why  string
+	}
+	forms := map[string]*form{"string": {}, "array": {}, "object": {}, "other": {}}
+	kindName := map[int64]string{34: "string", 91: "array", 123: "object"}
+	for len(e.pending) > 0 {
+		d := e.pending[len(e.pending)-1]
+		e.pending = e.pending[:len(e.pending)-1]
+		e.decisions, e.taken, e.steps, e.calls, e.uid, e.decided = d, nil, 0, nil, 0, map[string]bool{}
+		e.bytes, e.constraints, e.onceDone, e.varintBufs = nil, nil, nil, nil
+		e.atoms, e.atomInfo, e.bufInfo = nil, nil, nil
+		recv := cpPtrTo(cpStructUnknownExcept(schemaT, nil), schemaT)
+		var res []cpVal
+		why := ""
+		func() {
+			defer func() {
+				if x := recover(); x != nil {
+					if a, ok := x.(cpAbort); ok {
+						why = a.why
+						return
+					}
+					panic(x)
+				}
+			}()
+			res = e.call(ufn, []cpVal{recv, cpUnk{ID: "arg:dec"}}, 0)
+		}()
+		if why == "panic-instr" {
+			continue
+		}
+		if why != "" || len(res) != 1 {
+			return false
+		}
+		// which kind the path took the next token to be: the PeekKind result compared with '"', '[' or '{'
+		peek := ""
+		for i := range e.calls {
+			if strings.HasSuffix(e.calls[i].Callee, "jsontext.Decoder).PeekKind") {
+				peek = rfIdent(e.calls[i].Result)
+			}
+		}
+		fk := "other"
+		for _, a := range e.atoms {
+			if !a.Known || peek == "" {
+				continue
+			}
+			eq := a.Op == token.EQL && a.Truth || a.Op == token.NEQ && !a.Truth
+			if !eq {
+				continue
+			}
+			var k cpInt
+			var isK bool
+			switch {
+			case rfIdent(a.X) == peek:
+				k, isK = a.Y.(cpInt)
+			case rfIdent(a.Y) == peek:
+				k, isK = a.X.(cpInt)
+			}
+			if isK {
+				if n, has := kindName[k.V]; has {
+					fk = n
+				}
+			}
+		}
+		f := forms[fk]
+		if _, errNil := res[0].(cpNil); !errNil {
+			// a failure; for the three forms that is only acceptable when it is the JSON library's error handed on
+			continue
+		}
+		if f.seen && f.why != "" {
+			continue
+		}
+		f.seen = true
+		sv := recv.C.V
+		typeV, _ := cpFieldByName(sv, "Type")
+		var decoded []*cpCall
+		for i := range e.calls {
+			if strings.HasSuffix(e.calls[i].Callee, "json.UnmarshalDecode") {
+				decoded = append(decoded, &e.calls[i])
+			}
+		}
+		switch fk {
+		case "string":
+			okS := false
+			for i := range e.calls {
+				if strings.HasSuffix(e.calls[i].Callee, "jsontext.Token).String") && rfIdent(e.calls[i].Result) != "" && rfIdent(e.calls[i].Result) == rfIdent(typeV) {
+					okS = true
+				}
+			}
+			if !okS {
+				f.why = "for a JSON string the schema's Type is not set from the token's string"
+			}
+		case "array":
+			ts, _ := typeV.(cpStr)
+			okD := false
+			if len(decoded) == 1 && len(decoded[0].Args) >= 2 {
+				if p, isP := stripIfaceVal(decoded[0].Args[1]).(cpPtr); isP && p.C != nil {
+					if st, isS := sv.(cpStruct); isS {
+						if stt, ok := st.T.Underlying().(*types.Struct); ok {
+							for i := 0; i < stt.NumFields(); i++ {
+								if stt.Field(i).Name() == "Union" && st.F[i] == p.C {
+									okD = true
+								}
+							}
+						}
+					}
+				}
+			}
+			if ts.V != "union" || !okD {
+				f.why = "for a JSON array Type is not set to \"union\" with the branches decoded into Union"
+			}
+		case "object":
+			objV, _ := cpFieldByName(sv, "Object")
+			op, isP := objV.(cpPtr)
+			fresh := isP && op.C != nil
+			okD := false
+			if fresh && len(decoded) == 1 && len(decoded[0].Args) >= 2 {
+				if p, ok := stripIfaceVal(decoded[0].Args[1]).(cpPtr); ok && p.C == op.C {
+					okD = true
+				}
+			}
+			cleared, hoisted := false, false
+			if fresh {
+				ot, _ := cpFieldByName(op.C.V, "Type")
+				if s, isS := ot.(cpStr); isS && s.V == "" {
+					cleared = true
+				}
+				// Type is what the decoded object held: a part of what the decode call left there
+				if id := rfIdent(typeV); id != "" && (strings.HasSuffix(id, ".Type") || strings.HasPrefix(id, "havoc")) {
+					hoisted = true
+				}
+			}
+			if os.Getenv("AVROCHECK_SMALLFOLD") != "" {
+				fmt.Fprintf(os.Stderr, "jsHoist object: typeV=%#v\n", typeV)
+			}
+			if !(fresh && okD && cleared && hoisted) {
+				f.why = fmt.Sprintf("for a JSON object: fresh object installed %v, decoded into it %v, Type hoisted from it %v, then cleared there %v (an object form parsed without its object cannot be written back as an object, and a record without it builds no codec)", fresh, okD, hoisted, cleared)
+			}
+		default:
+			f.why = "a token that is neither string, array nor object is accepted without error"
+		}
+	}
+	for _, fk := range []string{"string", "array", "object", "other"} {
+		f := forms[fk]
+		key := fnKey(ufn) + "/form[" + fk + "]"
+		if fk != "other" && !f.seen {
+			c.Bad(key, P.pos(ufn.Pos()), "no success outcome for a JSON "+fk+" (parse folded with the decoder unknown)")
+			continue
+		}
+		c.Check(f.why == "", key, P.pos(ufn.Pos()), "handled as the schema grammar requires (parse folded with the decoder unknown; the state of the schema read off each outcome)", f.why)
+	}
+	return true
+}
+
+func stripIfaceVal(v cpVal) cpVal {
+	if i, ok := v.(cpIface); ok {
+		return i.V
+	}
+	return v
+}
+
+// ---------- SG-COMP
+
+// ruleSGComp: schema generation is compositional. The schema found at the items of []E, at the values of
+// map[string]E and at a field of type E is the schema generated for E on its own — for E a plain value, a
+// pointer, a slice, a map, a byte slice, a struct and a pointer to a struct. Generation is folded (E-CP,
+// registries taken as empty) for the composite and for E, and the two schema values are compared. The codec
+// for an element is built from the schema at the element, so an element schema that drops (or adds) the
+// nullable union of a pointer there gives a codec that writes nothing for nil.
+func ruleSGComp(c *Ctx) {
+	c.Rule("SG-COMP", "the schema generated for the element of a slice, the value of a map and a field of a struct is the schema generated for that type on its own", 3)
+	P := c.P
+	root := schemaRootFn(P)
+	if !c.Anchor(root != nil, "schemaForType") {
+		return
+	}
+	prim := func(k reflect.Kind) *cpRType { return cpRTypeOfKind(k, false) }
+	i64 := prim(reflect.Int64)
+	str := prim(reflect.String)
+	inner := &cpRType{ID: "fx.Inner", Kind: int64(reflect.Struct), Name: "Inner", PkgPath: "example.com/fx-pkg", Size: 8, Fields: []cpRField{{Name: "P", Type: i64}}}
+	ptr := func(e *cpRType) *cpRType {
+		return &cpRType{ID: "*" + e.ID, Kind: int64(reflect.Ptr), Elem: e, Size: 8}
+	}
+	slice := func(e *cpRType) *cpRType {
+		return &cpRType{ID: "[]" + e.ID, Kind: int64(reflect.Slice), Elem: e, Size: 24}
+	}
+	mp := func(e *cpRType) *cpRType {
+		return &cpRType{ID: "map[string]" + e.ID, Kind: int64(reflect.Map), Elem: e, Key: str, Size: 8}
+	}
+	elems := []*cpRType{i64, str, ptr(i64), slice(i64), mp(i64), cpRTypeOfKind(reflect.Slice, true), inner, ptr(inner), ptr(ptr(i64))}
+	gen := func(rt *cpRType) (cpVal, string) {
+		cpLookupMiss, cpFoldAll, cpMaxDepth = true, true, 16
+		cpMaxOutcomes = 256
+		outs, _, ok, why := cpFoldOpt(P, root, []cpVal{rt}, nil)
+		cpMaxOutcomes = 96
+		cpLookupMiss, cpFoldAll, cpMaxDepth = false, false, 8
+		if !ok {
+			return nil, "generation could not be folded for " + rt.ID + ": " + why
+		}
+		var got cpVal
+		n := 0
+		for _, o := range outs {
+			if o.Panics || len(o.Results) != 2 {
+				continue
+			}
+			if _, errNil := o.Results[1].(cpNil); errNil {
+				n++
+				if got == nil {
+					got = o.Results[0]
+				} else if d := cpSchemaDiff(got, o.Results[0], 0); d != "" {
+					if os.Getenv("AVROCHECK_SMALLFOLD") != "" {
+						for _, oo := range outs {
+							fmt.Fprintf(os.Stderr, "SGCOMP %s outcome decided=%v\n", rt.ID, oo.Decided)
+							for _, cl := range oo.Calls {
+								fmt.Fprintf(os.Stderr, "     %s %.120v -> %.60v\n", cl.Callee, cl.Args, cl.Result)
+							}
+						}
+					}
+					// several ways through (a test of something the fold does not know) must agree on the schema
+					return nil, fmt.Sprintf("generation for %s has successful outcomes with different schemas (%s)", rt.ID, d)
+				}
+			}
+		}
+		if n == 0 {
+			return nil, fmt.Sprintf("generation for %s has no successful outcome", rt.ID)
+		}
+		return got, ""
+	}
+	part := func(sv cpVal, field string) cpVal {
+		ov, _ := cpFieldByName(sv, "Object")
+		op, isP := ov.(cpPtr)
+		if !isP || op.C == nil {
+			return nil
+		}
+		v, _ := cpFieldByName(op.C.V, field)
+		return v
+	}
+	for _, pos := range []string{"slice", "map", "field"} {
+		key := fnKey(root) + "/element-of-" + pos
+		var bad, unk []string
+		n := 0
+		for _, e := range elems {
+			want, why := gen(e)
+			if why != "" {
+				unk = append(unk, why)
+				continue
+			}
+			var comp *cpRType
+			switch pos {
+			case "slice":
+				comp = slice(e)
+			case "map":
+				comp = mp(e)
+			default:
+				comp = cpRTypeOfKind(reflect.Struct, false)
+				comp.Fields = []cpRField{{Name: "F", Type: e}}
+				comp.Size = e.Size
+			}
+			got, why := gen(comp)
+			if why != "" {
+				unk = append(unk, why)
+				continue
+			}
+			var at cpVal
+			switch pos {
+			case "slice":
+				at = part(got, "Items")
+			case "map":
+				at = part(got, "Values")
+			default:
+				if fs, ok := recordFieldsOf(got); ok && len(fs) == 1 {
+					at = fs[0].typ
+				}
+			}
+			n++
+			if at == nil {
+				bad = append(bad, fmt.Sprintf("the schema generated for %s has no schema at its element", comp.ID))
+				continue
+			}
+			if d := cpSchemaDiff(at, want, 0); d != "" {
+				bad = append(bad, fmt.Sprintf("in %s the element's schema differs from the schema of %s on its own (%s)", comp.ID, e.ID, d))
+			}
+		}
+		switch {
+		case len(bad) > 0:
+			c.Bad(key, P.pos(root.Pos()), strings.Join(dedup(bad), "; "))
+		case len(unk) > 0:
+			c.Unk(key, P.pos(root.Pos()), strings.Join(dedup(unk), "; "))
+		default:
+			c.OK(key, P.pos(root.Pos()), fmt.Sprintf("generation folded for %d element types (value, string, pointer, slice, map, bytes, struct, pointer to struct, pointer to pointer): the schema at the element equals the schema of the element type", n))
+		}
+	}
+}
+
+// cpSchemaDiff compares two folded Schema values; parts neither fold knows (a namespace computed by a
+// replacer) compare equal. Returns "" when equal, otherwise where they differ.
+func cpSchemaDiff(a, b cpVal, d int) string {
+	if d > 12 {
+		return ""
+	}
+	isUnk := func(v cpVal) bool { _, ok := v.(cpUnk); return ok }
+	if isUnk(a) && isUnk(b) {
+		return ""
+	}
+	switch x := a.(type) {
+	case nil:
+		if b == nil {
+			return ""
+		}
+		return cpSchemaDiff(b, a, d)
+	case cpNil:
+		switch y := b.(type) {
+		case cpNil, nil:
+			return ""
+		case cpSlice:
+			if len(y.Elems) == 0 {
+				return ""
+			}
+		case cpStr:
+			if y.V == "" {
+				return ""
+			}
+		}
+		return fmt.Sprintf("nil against %T", b)
+	case cpStr:
+		if y, ok := b.(cpStr); ok {
+			if x.V == y.V {
+				return ""
+			}
+			return fmt.Sprintf("%q against %q", x.V, y.V)
+		}
+		if b == nil && x.V == "" {
+			return ""
+		}
+		if _, isN := b.(cpNil); isN && x.V == "" {
+			return ""
+		}
+		return fmt.Sprintf("%q against %T", x.V, b)
+	case cpInt:
+		if y, ok := b.(cpInt); ok && x.V == y.V {
+			return ""
+		}
+		if b == nil && x.V == 0 {
+			return ""
+		}
+		return "numbers differ"
+	case cpBool:
+		if y, ok := b.(cpBool); ok && x.V == y.V {
+			return ""
+		}
+		return "flags differ"
+	case cpPtr:
+		y, ok := b.(cpPtr)
+		if !ok {
+			if _, isN := b.(cpNil); (isN || b == nil) && x.C == nil {
+				return ""
+			}
+			return fmt.Sprintf("an object against %T", b)
+		}
+		if x.C == nil || y.C == nil {
+			if x.C == y.C {
+				return ""
+			}
+			return "an object against none"
+		}
+		return cpSchemaDiff(x.C.V, y.C.V, d+1)
+	case cpSlice:
+		y, ok := b.(cpSlice)
+		if !ok {
+			if _, isN := b.(cpNil); (isN || b == nil) && len(x.Elems) == 0 {
+				return ""
+			}
+			return fmt.Sprintf("a list of %d against %T", len(x.Elems), b)
+		}
+		if len(x.Elems) != len(y.Elems) {
+			return fmt.Sprintf("a list of %d against a list of %d", len(x.Elems), len(y.Elems))
+		}
+		for i := range x.Elems {
+			if df := cpSchemaDiff(x.Elems[i].V, y.Elems[i].V, d+1); df != "" {
+				return fmt.Sprintf("[%d]: %s", i, df)
+			}
+		}
+		return ""
+	case cpStruct:
+		y, ok := b.(cpStruct)
+		if !ok {
+			return fmt.Sprintf("a struct against %T", b)
+		}
+		st, isS := x.T.Underlying().(*types.Struct)
+		if !isS {
+			return ""
+		}
+		for i := 0; i < st.NumFields(); i++ {
+			var fa, fb cpVal
+			if cx, has := x.F[i]; has {
+				fa = cx.V
+			}
+			if cy, has := y.F[i]; has {
+				fb = cy.V
+			}
+			if df := cpSchemaDiff(fa, fb, d+1); df != "" {
+				return st.Field(i).Name() + ": " + df
+			}
+		}
+		return ""
+	}
+	if isUnk(a) || isUnk(b) {
+		return ""
+	}
+	return ""
+}
+
+// ---------- CD-NUM
+
+// ruleCDNum: between the wire and the Go value a number only ever goes through Go conversions and the bit
+// reinterpretations of package math. Nothing a codec method reaches calls a routine that re-derives a number
+// from its decimal text or rounds it (strconv, math/big, fmt's scanners, math.Round/Floor/Ceil/Trunc/Mod/
+// Nextafter/Pow…): those are many-to-one or base-dependent and break exact inversion for some values while
+// looking right for the "nice" ones.
+func ruleCDNum(c *Ctx) {
+	c.Rule("CD-NUM", "no codec method reaches a routine that re-derives a number from decimal text or rounds it (strconv, math/big, fmt scanners, math rounding): numbers cross between wire and value by conversion and bit reinterpretation only", 27)
+	P := c.P
+	bt := getBT(P)
+	deny := func(g *ssa.Function) string {
+		if g == nil || g.Pkg == nil && g.Object() == nil {
+			return ""
+		}
+		q := qualName(g)
+		pkg := ""
+		if g.Pkg != nil {
+			pkg = g.Pkg.Pkg.Path()
+		} else if g.Object() != nil && g.Object().Pkg() != nil {
+			pkg = g.Object().Pkg().Path()
+		}
+		switch pkg {
+		case "strconv", "math/big":
+			return q
+		case "fmt":
+			if strings.Contains(g.Name(), "scan") || strings.Contains(g.Name(), "Scan") {
+				return q
+			}
+		case "math":
+			switch g.Name() {
+			case "Round", "RoundToEven", "Floor", "Ceil", "Trunc", "Mod", "Remainder", "Nextafter", "Nextafter32", "Pow", "Pow10", "Log", "Log2", "Log10", "Exp", "Exp2", "Frexp", "Ldexp", "Modf":
+				return q
+			}
+		}
+		return ""
+	}
+	for _, ct := range bt.Codecs {
+		key := ct.Name + "/numbers-by-conversion"
+		bad := ""
+		n := 0
+		seenF := map[*ssa.Function]bool{}
+		var scan func(f *ssa.Function, d int)
+		scan = func(f *ssa.Function, d int) {
+			if f == nil || seenF[f] || f.Blocks == nil || d > 4 {
+				return
+			}
+			seenF[f] = true
+			n++
+			for _, cs := range callsIn(f) {
+				if cs.Static == nil {
+					continue
+				}
+				if q := deny(cs.Static); q != "" && bad == "" {
+					bad = fmt.Sprintf("%s calls %s at %s", fnKey(f), q, P.pos(cs.Instr.Pos()))
+				}
+				if P.isModuleFunc(cs.Static) {
+					scan(cs.Static, d+1)
+				}
+			}
+		}
+		for _, m := range codecMethodNames {
+			if ct.Declared[m] {
+				scan(ct.M[m], 0)
+			}
+		}
+		if n == 0 {
+			continue
+		}
+		c.Check(bad == "", key, P.pos(ct.M["Read"].Pos()), fmt.Sprintf("%d functions reachable from the codec's methods: no decimal re-derivation or rounding routine", n), bad+": the value decoded or written is no longer the exact image of the other side for every value")
+	}
 }
